@@ -7,6 +7,7 @@ import (
 	"os"
 	"path"
 	"path/filepath"
+	"sort"
 	"strconv"
 	"strings"
 
@@ -188,6 +189,34 @@ func (f File) Validate() error {
 			}
 			unionNames[fd.name()] = struct{}{}
 		}
+		// the inline records of a union are types of the file in their own right
+		for _, num := range sortedUnionIndices(un) {
+			fd := un.Fields[num]
+			if _, ok := primitiveTypes[fd.name()]; ok {
+				return fmt.Errorf("union %s member shares primitive type name %s", un.Name, fd.name())
+			}
+			if _, ok := customTypes[fd.name()]; ok {
+				return fmt.Errorf("union %s member has duplicated name %s", un.Name, fd.name())
+			}
+			customTypes[fd.name()] = struct{}{}
+			var fields []Field
+			if fd.Struct != nil {
+				fields = fd.Struct.Fields
+				structTypeUsage[fd.name()] = fd.Struct.usedTypes()
+			}
+			if fd.Message != nil {
+				for _, mfd := range fd.Message.Fields {
+					fields = append(fields, mfd)
+				}
+			}
+			fdNames := map[string]struct{}{}
+			for _, mfd := range fields {
+				if _, ok := fdNames[mfd.Name]; ok {
+					return fmt.Errorf("union %s member %s has duplicate field name %s", un.Name, fd.name(), mfd.Name)
+				}
+				fdNames[mfd.Name] = struct{}{}
+			}
+		}
 		if un.OpCode != 0 {
 			if conflict, ok := allOpCodes[un.OpCode]; ok {
 				return fmt.Errorf("union %s has duplicate opcode %02x (duplicated in %s)", un.Name, un.OpCode, conflict)
@@ -254,6 +283,17 @@ func (f File) Validate() error {
 	}
 
 	return nil
+}
+
+// sortedUnionIndices returns the discriminators of a union in ascending order, so
+// that validation visits members (and reports errors) deterministically.
+func sortedUnionIndices(un Union) []uint8 {
+	nums := make([]uint8, 0, len(un.Fields))
+	for num := range un.Fields {
+		nums = append(nums, num)
+	}
+	sort.Slice(nums, func(i, j int) bool { return nums[i] < nums[j] })
+	return nums
 }
 
 func typeDefined(ft FieldType, allTypes map[string]struct{}) error {
